@@ -6,6 +6,7 @@ CONSTANTS
   Tags = {0, 1}
   Es = 8
   MaxPa = 4
+  TRem = {}
   OpNames = {"insert", "remove", "replace", "get_or_insert", "xor_assign", "or_assign", "shrink_to_fit"}
 INVARIANTS Inv Refines ChkOK
 CHECK_DEADLOCK FALSE
